@@ -105,6 +105,8 @@ const (
 	akLin
 	akFunc   // compiled Function record selected by operand: f := ...Functions[opK]
 	akSPCopy // local copy of p.sp (stack helpers)
+	akStruct // a struct value whose fields have known abstract values (state handed from one helper to another)
+	akCodeSlice // a slice of the operands that follow the instruction: code[ip : ip+n]
 )
 
 type absVal struct {
@@ -112,6 +114,8 @@ type absVal struct {
 	op   int    // operand index (akOperand)
 	lin  Lin    // akLin / akSPCopy (delta relative to entry sp)
 	atom string // akFunc: index atom
+	flds map[string]absVal // akStruct
+	base int // akCodeSlice: operand index of its first element
 }
 
 type vmState struct {
@@ -123,10 +127,11 @@ type vmState struct {
 	tail   map[int]bool // reads inside a counted loop, relative to the loop's ip base
 	guards []Lit
 	env    map[types.Object]absVal
+	tailSlice bool // the operands after the static ones were taken as a slice of the code
 }
 
 func (s *vmState) clone() *vmState {
-	n := &vmState{sp: s.sp.clone(), ip: s.ip, ipVar: s.ipVar.clone(), jumps: map[int]bool{}, reads: map[int]bool{}, tail: map[int]bool{}, env: map[types.Object]absVal{}}
+	n := &vmState{sp: s.sp.clone(), ip: s.ip, ipVar: s.ipVar.clone(), jumps: map[int]bool{}, reads: map[int]bool{}, tail: map[int]bool{}, env: map[types.Object]absVal{}, tailSlice: s.tailSlice}
 	for k, v := range s.jumps {
 		n.jumps[k] = v
 	}
@@ -825,6 +830,24 @@ func (w *vmWalker) stmt(s ast.Stmt, in []*vmState) []*vmState {
 					}
 					if types.TypeString(tv.Type, nil) == "error" {
 						forwards = true
+						// a constructor of errors (every return of it is a non-nil error) is not a forwarded result
+						if f := calleeOf(w.m.pkg.TypesInfo, call); f != nil {
+							if sf := w.m.c.Prog.FuncValue(f); sf != nil && len(sf.Blocks) > 0 {
+								always := true
+								for _, b := range sf.Blocks {
+									if r, ok := b.Instrs[len(b.Instrs)-1].(*ssa.Return); ok {
+										if len(r.Results) != 1 || errNonNil(r.Results[0], 0) != 1 {
+											always = false
+										}
+									}
+								}
+								if always {
+									forwards = false
+								}
+							} else if f.Pkg() != nil && (f.Pkg().Path() == "errors" || f.Pkg().Path() == "fmt") {
+								forwards = false
+							}
+						}
 					}
 				}
 			}
@@ -1131,6 +1154,15 @@ func (w *vmWalker) assign(s *ast.AssignStmt, in []*vmState) []*vmState {
 				for a := range v.T {
 					var k int
 					if _, err := fmt.Sscanf(a, "op%d", &k); err == nil {
+						if v.T[a] > 1 && st.tailSlice {
+							// the operands that follow were taken as a slice code[ip:ip+c*opK] and are skipped in one step:
+							// a variadic tail of c operands per unit of operand k
+							st.ipVar = st.ipVar.Add(linC(v.T[a]).MulAtom(a))
+							for i := 0; i < v.T[a]; i++ {
+								st.tail[i] = true
+							}
+							continue
+						}
 						st.jumps[k] = true
 						if v.T[a] != 1 {
 							w.issue("ip advanced by %d times operand %d at %s (a jump adds its offset once)", v.T[a], k, w.m.c.relPos(s.Pos()))
@@ -1179,6 +1211,9 @@ func (w *vmWalker) assign(s *ast.AssignStmt, in []*vmState) []*vmState {
 			for _, st := range cur {
 				if v, ok := w.absOf(s.Rhs[i], st); ok {
 					st.env[o] = v
+					if v.kind == akCodeSlice {
+						st.tailSlice = true
+					}
 				} else {
 					delete(st.env, o)
 				}
@@ -1219,6 +1254,41 @@ func (w *vmWalker) absOf(e ast.Expr, st *vmState) (absVal, bool) {
 		if id, ok := x.X.(*ast.Ident); ok {
 			if v, ok := st.env[info.Uses[id]]; ok && v.kind == akFunc {
 				return absVal{kind: akLin, lin: linAtom(x.Sel.Name + "(" + v.atom + ")")}, true
+			}
+			if v, ok := st.env[info.Uses[id]]; ok && v.kind == akStruct {
+				if fv, ok := v.flds[x.Sel.Name]; ok {
+					return fv, true
+				}
+				return absVal{}, false
+			}
+		}
+	case *ast.CompositeLit:
+		if _, ok := info.TypeOf(x).Underlying().(*types.Struct); ok {
+			flds := map[string]absVal{}
+			for _, el := range x.Elts {
+				if kv, ok := el.(*ast.KeyValueExpr); ok {
+					if k, ok := kv.Key.(*ast.Ident); ok {
+						if fv, ok := w.absOf(kv.Value, st); ok {
+							flds[k.Name] = fv
+						}
+					}
+				}
+			}
+			return absVal{kind: akStruct, flds: flds}, true
+		}
+	case *ast.SliceExpr:
+		// code[ip : ip+n]: the operands that follow
+		if id, ok := x.X.(*ast.Ident); ok && w.cobj() != nil && info.Uses[id] == w.cobj() && x.Low != nil {
+			if k, ok := w.ipOffset(x.Low); ok {
+				return absVal{kind: akCodeSlice, base: st.ip + k}, true
+			}
+		}
+	case *ast.CallExpr:
+		// the result of a helper of the package that does not touch the stack: its return value, evaluated with the
+		// arguments passed here (state captured in a struct and handed to a later helper)
+		if f := calleeOf(info, x); f != nil && f.Pkg() == w.m.pkg.Types && !w.m.affect[f.Name()] && w.depth < 3 {
+			if v, ok := w.pureResult(f, x, st); ok {
+				return v, true
 			}
 		}
 	}
@@ -1272,6 +1342,16 @@ func (w *vmWalker) evalLin(e ast.Expr, st *vmState) (Lin, bool) {
 		if id, ok := x.X.(*ast.Ident); ok {
 			if v, ok := st.env[info.Uses[id]]; ok && v.kind == akFunc {
 				return linAtom(x.Sel.Name + "(" + v.atom + ")"), true
+			}
+			if v, ok := st.env[info.Uses[id]]; ok && v.kind == akStruct {
+				if fv, ok := v.flds[x.Sel.Name]; ok {
+					switch fv.kind {
+					case akLin:
+						return fv.lin, true
+					case akOperand:
+						return linAtom(fmt.Sprintf("op%d", fv.op)), true
+					}
+				}
 			}
 		}
 	case *ast.BinaryExpr:
@@ -1628,4 +1708,77 @@ func (w *vmWalker) inlineIP(f *types.Func, call *ast.CallExpr, ai, ci, li int, i
 		}
 	}
 	return out
+}
+
+// pureResult: the abstract value a helper that does not touch the stack returns, when all its return statements
+// return the same local variable or expression that can be evaluated with the arguments bound.
+func (w *vmWalker) pureResult(f *types.Func, call *ast.CallExpr, st *vmState) (absVal, bool) {
+	name := f.Name()
+	if sig, ok := f.Type().(*types.Signature); ok && sig.Recv() != nil {
+		if n := named(sig.Recv().Type()); n != nil {
+			name = n.Obj().Name() + "." + name
+		}
+	}
+	fd := w.m.c.funcDecl("interp", name)
+	if fd == nil || fd.Body == nil {
+		return absVal{}, false
+	}
+	info := w.m.pkg.TypesInfo
+	env := map[types.Object]absVal{}
+	i := 0
+	for _, fl := range fd.Type.Params.List {
+		for _, nm := range fl.Names {
+			if i < len(call.Args) {
+				if v, ok := w.absOf(call.Args[i], st); ok {
+					env[info.Defs[nm]] = v
+				}
+			}
+			i++
+		}
+	}
+	sub := &vmWalker{m: w.m, name: "val:" + f.Name(), depth: w.depth + 1, fnMode: true}
+	local := &vmState{sp: linC(0), ipVar: linC(0), jumps: map[int]bool{}, reads: map[int]bool{}, tail: map[int]bool{}, env: env}
+	// top-level definitions of the helper's body, in order (no forks: the value must not depend on a branch)
+	var result *absVal
+	for _, s := range fd.Body.List {
+		switch x := s.(type) {
+		case *ast.AssignStmt:
+			if len(x.Lhs) == len(x.Rhs) {
+				for j, l := range x.Lhs {
+					if id, ok := l.(*ast.Ident); ok {
+						o := info.Defs[id]
+						if o == nil {
+							o = info.Uses[id]
+						}
+						if v, ok := sub.absOf(x.Rhs[j], local); ok && o != nil {
+							local.env[o] = v
+						} else if o != nil {
+							delete(local.env, o)
+						}
+					}
+				}
+			}
+		case *ast.ReturnStmt:
+			if len(x.Results) == 1 {
+				if v, ok := sub.absOf(x.Results[0], local); ok {
+					result = &v
+				}
+			}
+		}
+	}
+	// any other return statement (nested) makes the value path-dependent
+	nRet := 0
+	ast.Inspect(fd.Body, func(n ast.Node) bool {
+		if _, ok := n.(*ast.FuncLit); ok {
+			return false
+		}
+		if _, ok := n.(*ast.ReturnStmt); ok {
+			nRet++
+		}
+		return true
+	})
+	if result == nil || nRet != 1 {
+		return absVal{}, false
+	}
+	return *result, true
 }
